@@ -322,6 +322,34 @@ def inherited_class_slots():
     return sorted(out)
 
 
+def slot_tables():
+    """for every class-level store site: the class table of its family (sorted by name; row = strict ancestors inside the family in C3 order,
+    what the class body binds for the attribute: 0 nothing / 1 a falsy literal / 2 anything else, whether the class is instantiable)"""
+    classes = class_table()
+    memo = {}
+    inst = {c for c, (_, names, _, _) in classes.items() if any(names.get(m) for m in SLOT_MARKERS)}
+    out = []
+    seen = set()
+    for rel, fn, ln0, ln1, attr, ln, shape in class_level_stores():
+        owners = [c for c, (_, _, r, fns) in classes.items() if r == rel and fn in fns]
+        if not owners:
+            raise Fail('class-level store in %s.%s: no owning class found' % (rel, fn))
+        for K in owners:
+            if (attr, K) in seen:
+                continue
+            seen.add((attr, K))
+            fam = sorted(c for c in classes if K in _c3(classes, c, memo))
+            idx = {c: i for i, c in enumerate(fam)}
+            rows = []
+            for c in fam:
+                mro = [idx[b] for b in _c3(classes, c, memo)[1:] if b in idx]
+                names = classes[c][1]
+                state = 0 if attr not in names else (2 if names[attr] else 1)
+                rows.append((mro, state, c in inst))
+            out.append((attr, K, fam, rows))
+    return out
+
+
 # ---- (c3) lazily initialised INSTANCE attributes (objects that live in class-level tables are shared by all threads and elements):
 #      every  `if self.<a> is None: ...`  whose body stores self.<a>; shape = one store of the final value on every path, or several
 def lazy_instance_stores():
@@ -1155,6 +1183,17 @@ def main():
         side['inherited_class_slots'] = 'FAILED: ' + str(ex)
         o.append('Definition tr_class_slots_ok := false.')
         o.append('Definition inherited_class_slots : list (string * string * string) := [].')
+    try:
+        stb = slot_tables()
+        side['slot_tables'] = [[a, k, len(f), sum(1 for r in rows if r[2])] for a, k, f, rows in stb]
+        o.append('(* per class-level store site: the class table of its family - row i = (strict ancestors of class i inside the family in C3 order, what its body binds: 0 / 1 rejected literal / 2, instantiable) *)')
+        o.append('Definition tr_slot_tables_ok := true.')
+        o.append('Definition slot_tables : list (string * string * list (list nat * nat * bool)) := [' + ';\n '.join(
+            '(%s, %s, [%s])' % (cq(a), cq(k), '; '.join('([%s], %d, %s)' % ('; '.join(map(str, m)), st, 'true' if u else 'false') for m, st, u in rows)) for a, k, f, rows in stb) + '].')
+    except Fail as ex:
+        side['slot_tables'] = 'FAILED: ' + str(ex)
+        o.append('Definition tr_slot_tables_ok := false.')
+        o.append('Definition slot_tables : list (string * string * list (list nat * nat * bool)) := [].')
     stm = shared_table_mutations()
     side['shared_table_mutations'] = stm
     o.append('(* in-place mutations of a value obtained from a class-level table getter (file, function, what): none allowed *)')
